@@ -1029,4 +1029,143 @@ theorem reachable_bcap {g : Graph} (hsym : EdgeSym g) {ncls : Nat} {store : List
   | init hidden => exact bcap_init g ncls store hidden
   | step s w out fuel hr hw _ ih => exact resume_bcap g hsym s w out fuel hw (hr.pinv hsym) ih
 
+
+/-! ## the number of results, with and without bumps; the run-level theorems -/
+
+/-- `Σ_n max(max(max_tries n, 1) + 1, |workers| + 1)`: the bound on the number of results when bumps are allowed -/
+def resultBoundB (g : Graph) : Nat :=
+  ((List.range g.nodes.length).map
+    (fun n => max ((max ((g.node n).maxTries.getD 1) 1).toNat + 1) (g.workers.length + 1))).sum
+
+/-- with bump counters within `bumpCap` and `max_concurrent_tries₀ ≤ max(max_tries, 1)`, the largest threshold of a class is
+at most `max(max(max_tries, 1) + 1, |workers| + 1)` -/
+theorem classLimit_le_of_bcap {g : Graph} {c : Nat} {M : Option Int} {sh : Shape} (hc : BClass g c M sh)
+    (hm : mctWithin g c M = true) (s : State) (hb : BCap g s) :
+    classLimit g s c ≤ max ((max (M.getD 1) 1).toNat + 1) (g.workers.length + 1) := by
+  unfold classLimit
+  apply foldr_max_le
+  intro m hm1
+  rw [mem_classNodes] at hm1
+  have hcap := hb m
+  unfold bumpCap at hcap
+  unfold mctWithin at hm
+  rw [List.all_eq_true] at hm
+  have hm' := hm m ((mem_classNodes g c m).mpr hm1)
+  have hM := (hc.node m hm1.1 hm1.2).2.2.2.1
+  unfold peakLimit limit limit0 mctOf
+  dsimp only
+  rw [hM]
+  cases hk : (g.node m).mct with
+  | none =>
+    rw [hk] at hcap
+    simp only [Option.getD_none] at hcap ⊢
+    split <;> omega
+  | some k =>
+    rw [hk] at hm' hcap
+    simp only [decide_eq_true_eq] at hm'
+    simp only [Option.getD_some] at hcap ⊢
+    split <;> omega
+
+/-- **the number of results never exceeds `resultBoundB g`**, whatever has been bumped -/
+theorem total_le_resultBoundB {g : Graph} (hwf : graphWF g = true) (hcl : classesOKRB g = true) {ncls : Nat}
+    {store : List (String × List (String × String))} {s : State} (hR : ReachableR g ncls store s) (hb : BCap g s) :
+    total g s ≤ resultBoundB g := by
+  refine sum_map_le _ _ _ (fun n hn => ?_)
+  have hn' : n < g.nodes.length := List.mem_range.mp hn
+  unfold classesOKRB at hcl
+  rw [List.all_eq_true] at hcl
+  have hc := hcl n hn
+  rw [Bool.or_eq_true, Bool.and_eq_true, Bool.or_eq_true] at hc
+  have stateful : ∀ {M : Option Int} {sh : Shape}, M = (g.node n).maxTries → BClass g (g.node n).cls M sh →
+      mctWithin g (g.node n).cls M = true →
+      (s.nd n).results.length ≤ max ((max (M.getD 1) 1).toNat + 1) (g.workers.length + 1) := by
+    intro M sh _ hC hm
+    have b := hR.binv hwf hC
+    by_cases hne : (s.nd n).results = []
+    · rw [hne]; exact Nat.zero_le _
+    · obtain ⟨u, hu, h1⟩ := len_le_scopedLen hC b n hn' rfl hne
+      have h2 := b.budget u hu [] List.nodup_nil (fun v hv => by cases hv)
+      have h3 := classLimit_le_of_bcap hC hm s hb
+      simp only [List.length_nil, Nat.add_zero] at h2
+      omega
+  rcases hc with hc | ⟨hc | hc, hm⟩
+  · have hle : (s.nd n).results.length ≤ classLen g s (g.node n).cls :=
+      Term.le_sum_of_mem (g.classNodes (g.node n).cls) (fun j => (s.nd j).results.length) n
+        ((mem_classNodes g _ n).mpr ⟨hn', rfl⟩)
+    have := hR.budget hwf (g.node n).cls (g.node n).maxTries hc
+    omega
+  · exact stateful rfl (statefulClass_spec hc) hm
+  · exact stateful rfl (statefulClassRoots_spec hc).1 hm
+
+theorem noBump_init (g : Graph) (ncls : Nat) (store : List (String × List (String × String))) :
+    NoBump (initState g ncls store []) := (ginvN_init g ncls store).noBump
+
+theorem noBump_run (g : Graph) (steps : List StepN) (s : State) (hb : BumpFree g s steps) (h0 : NoBump s) :
+    NoBump (runStepsN g s steps) := by
+  induction steps generalizing s with
+  | nil => exact h0
+  | cons a r ih =>
+    rw [runStepsN_cons]
+    exact ih _ hb.2 (fun i => (hb.1 i).trans (h0 i))
+
+/-- the number of results at the end of a run from the initial state: `resultBoundB` always, `resultBound` if nothing was
+bumped -/
+theorem total_run_le {g : Graph} {ncls : Nat} (st : StaticN g ncls) (hcl : classesOKRB g = true)
+    (store : List (String × List (String × String))) (steps : List StepN) (ok : RunOK2 g steps) :
+    total g (runStepsN g (initState g ncls store []) steps) ≤ resultBoundB g ∧
+    (BumpFree g (initState g ncls store []) steps →
+      total g (runStepsN g (initState g ncls store []) steps) ≤ resultBound g) := by
+  have y := ginv2_run st (rootsOwned_of_classesOKRB hcl) steps _ (ginv2_init g ncls store) ok
+  exact ⟨total_le_resultBoundB st.wf hcl y.reachR (reachable_bcap (edgeSymB_sound st.sym) y.reachF),
+    fun hb => total_le_resultBoundR st.wf hcl y.reachR (noBump_run g steps _ hb (noBump_init g ncls store))⟩
+
+/-- **fair runs, object roots allowed, nothing bumped** -/
+theorem fair_run_over_roots {g : Graph} {ncls : Nat} (st : StaticN g ncls) (hcl : classesOKRB g = true)
+    (store : List (String × List (String × String))) (K : Nat) (hK : 0 < K) (steps : List StepN) (ok : RunOK2 g steps)
+    (hb : BumpFree g (initState g ncls store []) steps) (hfair : FairW g K (initState g ncls store []) steps)
+    (hlen : (24 * resultBound g + 12 * g.workers.length + 1) * K ≤ steps.length) :
+    ¬ Alive g (runStepsN g (initState g ncls store []) steps) :=
+  lively_run_over2 st (rootsOwned_of_classesOKRB hcl) store K hK steps ok
+    (fair_lively2 st (rootsOwned_of_classesOKRB hcl) K steps _ (ginv2_init g ncls store) ok hfair) _
+    ((total_run_le st hcl store steps ok).2 hb) hlen
+
+/-- **fair runs, object roots and bumps allowed** -/
+theorem fair_run_over_bumps {g : Graph} {ncls : Nat} (st : StaticN g ncls) (hcl : classesOKRB g = true)
+    (store : List (String × List (String × String))) (K : Nat) (hK : 0 < K) (steps : List StepN) (ok : RunOK2 g steps)
+    (hfair : FairW g K (initState g ncls store []) steps)
+    (hlen : (24 * resultBoundB g + 12 * g.workers.length + 1) * K ≤ steps.length) :
+    ¬ Alive g (runStepsN g (initState g ncls store []) steps) :=
+  lively_run_over2 st (rootsOwned_of_classesOKRB hcl) store K hK steps ok
+    (fair_lively2 st (rootsOwned_of_classesOKRB hcl) K steps _ (ginv2_init g ncls store) ok hfair) _
+    (total_run_le st hcl store steps ok).1 hlen
+
+/-- **timed runs, object roots allowed, nothing bumped** -/
+theorem timed_run_over_roots {g : Graph} {ncls : Nat} (st : StaticN g ncls) (hcl : classesOKRB g = true)
+    (store : List (String × List (String × String))) (q T : Nat) (hq : 0 < q) (wake : Nat → Nat) (steps : List TStepN)
+    (ok : RunOK2 g (steps.map (·.1))) (hb : BumpFree g (initState g ncls store []) (steps.map (·.1)))
+    (ht : Timed g q T wake (initState g ncls store []) steps)
+    (hlen : (24 * resultBound g + 12 * g.workers.length + 1) * (g.workers.length * (T / q + 1) + 1) ≤ steps.length) :
+    ¬ Alive g (runStepsN g (initState g ncls store []) (steps.map (·.1))) :=
+  lively_run_over2 st (rootsOwned_of_classesOKRB hcl) store _ (Nat.succ_pos _) _ ok
+    (timed_lively2 st (rootsOwned_of_classesOKRB hcl) q T hq steps wake _ (ginv2_init g ncls store) ok ht
+      (due_init g ncls store T wake)) _
+    ((total_run_le st hcl store _ ok).2 hb) (by rw [List.length_map]; exact hlen)
+
+/-- **timed runs, object roots and bumps allowed** -/
+theorem timed_run_over_bumps {g : Graph} {ncls : Nat} (st : StaticN g ncls) (hcl : classesOKRB g = true)
+    (store : List (String × List (String × String))) (q T : Nat) (hq : 0 < q) (wake : Nat → Nat) (steps : List TStepN)
+    (ok : RunOK2 g (steps.map (·.1))) (ht : Timed g q T wake (initState g ncls store []) steps)
+    (hlen : (24 * resultBoundB g + 12 * g.workers.length + 1) * (g.workers.length * (T / q + 1) + 1) ≤ steps.length) :
+    ¬ Alive g (runStepsN g (initState g ncls store []) (steps.map (·.1))) :=
+  lively_run_over2 st (rootsOwned_of_classesOKRB hcl) store _ (Nat.succ_pos _) _ ok
+    (timed_lively2 st (rootsOwned_of_classesOKRB hcl) q T hq steps wake _ (ginv2_init g ncls store) ok ht
+      (due_init g ncls store T wake)) _
+    (total_run_le st hcl store _ ok).1 (by rw [List.length_map]; exact hlen)
+
+/-- productive steps of any run (object roots, bumps): at most `24·resultBoundB g + 12·|workers|` -/
+theorem productive_le_bumps {g : Graph} {ncls : Nat} (st : StaticN g ncls) (hcl : classesOKRB g = true)
+    (store : List (String × List (String × String))) (steps : List StepN) (ok : RunOK2 g steps) :
+    productiveSteps g (initState g ncls store []) steps ≤ 24 * resultBoundB g + 12 * g.workers.length :=
+  productive_le_run2 st (rootsOwned_of_classesOKRB hcl) store steps ok _ (total_run_le st hcl store steps ok).1
+
 end I2N.Trav.Fair2
